@@ -217,6 +217,53 @@ pub fn run(report: &Report, thorough: bool) -> Evidence {
                 }
             }
             }
+            // value sweep: EVERY key of the layout in both planes (all values the layout can emit, the rare signs and
+            // letters among them), pressed in one composition state per character class (set through the hook)
+            {
+                let pres = ["", "\u{0995}", "\u{0995}\u{09CD}", "\u{0995}\u{09BE}", "\u{0986}", "\u{0995}\u{0981}", ",", "\u{09B0}", "\u{09E7}", "\u{0995}\u{200C}", "\u{0995}\u{09C4}"];
+                for kd in crate::keys::KEYS.iter().filter(|k| !k.numpad && k.ch.is_some()) {
+                    for altgr in [false, true] {
+                        let value = lm.value(kd.ch.unwrap(), altgr);
+                        if value.is_empty() {
+                            continue;
+                        }
+                        let ev = Ev::Key { code: kd.code, m: if altgr { 2 } else { 0 }, sel: 0 };
+                        for p in pres {
+                            let pre = crate::fxgraph::FxState { buf: p.to_string(), typed: String::new(), pending: 0 };
+                            crate::fxgraph::restore(&ctx, &pre);
+                            let out = ctx.apply(&ev);
+                            sweep.fetch_add(1, Ordering::Relaxed);
+                            let got = match &out {
+                                Ok(Out::Sugg(r)) => r.text(),
+                                _ => {
+                                    report.add(Violation::new("C12", "panic", "panic:value-sweep").opts(&ctx.opts).feat("pre", crate::bn::esc(p)).origin(p, "", 0).events(&[ev.clone()]).detail(format!("{:?} on synthetic state {:?}", out, p)));
+                                    continue;
+                                }
+                            };
+                            match fixed_step_ref(p, &value, &ctx.opts) {
+                                RefOut::Text(exp) => {
+                                    if got != exp {
+                                        report.add(
+                                            Violation::new("C12", "ref-step-mismatch", &format!("value-sweep:{}:after-{}", crate::bn::esc(&value), p.chars().last().map(|c| crate::bn::esc(&c.to_string())).unwrap_or("start".into())))
+                                                .opts(&ctx.opts)
+                                                .feat("pre", crate::bn::esc(p))
+                                                .origin(p, "", 0)
+                                                .events(&[ev.clone()])
+                                                .detail(format!("composition {:?} (state set directly) + key value {:?} gave {:?}, rule chain says {:?}", p, value, got, exp)),
+                                        );
+                                    }
+                                }
+                                RefOut::Unspecified(_) => {
+                                    if got == p {
+                                        report.add(Violation::new("C12", "key-swallowed", "key-swallowed").opts(&ctx.opts).feat("pre", crate::bn::esc(p)).origin(p, "", 0).events(&[ev.clone()]).detail(format!("composition {:?} + key value {:?}: nothing happened", p, value)));
+                                    }
+                                }
+                                RefOut::RephConservation => {}
+                            }
+                        }
+                    }
+                }
+            }
             total.lock().unwrap().merge(&stats);
             if !stats.closed {
                 *closed_all.lock().unwrap() = false;
